@@ -35,6 +35,8 @@ IGNORE_BATTERY = [
     ("trailing-tab", "-- stylua: ignore\t\nlocal x   =  1\nlocal y   =  2\n", [], ["local x   =  1\n"], ["local y = 2\n"]),
     ("trailing-formfeed", "-- stylua: ignore \x0c\nlocal x   =  1\nlocal y   =  2\n", [], ["local x   =  1\n"], ["local y = 2\n"]),
     ("region-trailing-cr-tab", "-- stylua: ignore start \t\r\nlocal a   = 1\r\n--\tstylua: ignore end\r\nlocal b   = 2\r\n", [], ["local a   = 1\r\n"], ["local b = 2\n"]),
+    ("eof-no-newline-ignored-last", "local a   = 1\n-- stylua: ignore\nlocal b   =  2", [], [], [], "local a = 1\n-- stylua: ignore\nlocal b   =  2"),
+    ("eof-no-newline-region", "-- stylua: ignore start\nlocal b   =  2 -- c", ["--line-endings", "Windows"], [], [], "-- stylua: ignore start\nlocal b   =  2 -- c"),
     ("plain", "local a   = 1\nlocal b   = 2\n", [], [], ["local a = 1\n", "local b = 2\n"]),
     ("ignore-then-normal", "-- stylua: ignore\nlocal a   = 1\nlocal b   = 2\nlocal c   = 3\n", [], ["local a   = 1\n"], ["local b = 2\n", "local c = 3\n"]),
     ("call-semi", "-- stylua: ignore\nf  ( a );\n(g)()\n", [], ["f  ( a );\n"], []),
@@ -71,6 +73,9 @@ RANGE_BATTERY = [
     ("range-trailing-blank-lines", "local   a = 1\nlocal   b = 2\n\n\n\n", ["--range-start", "0", "--range-end", "13"], [], [], "local a = 1\nlocal   b = 2\n\n\n\n"),
     ("range-end-only-trailing-blank-lines", "local   a = 1\nlocal   b = 2\n\n\n\n", ["--range-end", "13"], [], [], "local a = 1\nlocal   b = 2\n\n\n\n"),
     ("range-empty-trailing-white-space", "local   a = 1\n  \t ", ["--range-start", "0", "--range-end", "0"], [], [], "local   a = 1\n  \t "),
+    ("range-tail-no-newline", "local   a = 1\nlocal   b   = 2", ["--range-end", "13"], [], [], "local a = 1\nlocal   b   = 2"),
+    ("range-tail-no-newline-comment", "local   a = 1\nlocal   b   = 2 -- c", ["--range-end", "13", "--line-endings", "Windows"], [], [], "local a = 1\r\nlocal   b   = 2 -- c"),
+    ("range-tail-crlf-kept", "local   a = 1\nlocal   b   = 2\r\n", ["--range-end", "13"], [], [], "local a = 1\nlocal   b   = 2\r\n"),
     ("range-open", "local x   =  1\nlocal y   =  2\n", [], [], ["local x = 1\n", "local y = 2\n"]),
     ("range-inverted", "local   a   =   1\nlocal   b   =   2 ;\nlocal   c   =   3\n", ["--range-start", "37", "--range-end", "18"], [], [],
      "local   a   =   1\nlocal   b   =   2 ;\nlocal   c   =   3\n"),
@@ -120,6 +125,8 @@ def scenarios_for(kind, names):
         return [n for n in names if n in TOGGLE]
     if kind in ("ignored-in-range", "field"):
         return list(names)
+    if kind == "output":
+        return [n for n in names if "no-newline" in n or "tail" in n] + [n for n in names if not ("no-newline" in n or "tail" in n)]
     return [n for n in names if n not in SEMI]
 
 
@@ -180,7 +187,7 @@ def analyses(ses, rep):
     M = ignoremodel.Model(ses, "default")
     flagged = []
     for fn_ in (ignoremodel.analyse_should_format_node, ignoremodel.analyse_toggle, ignoremodel.analyse_format_block, ignoremodel.analyse_skip_arms,
-                ignoremodel.analyse_field_sites):
+                ignoremodel.analyse_field_sites, ignoremodel.analyse_format_code_output):
         try:
             M.inline_helpers = True
             flagged += fn_(M, ses, rep)
@@ -202,11 +209,11 @@ def run(ses, rep):
                     "format_multiline_table are replayed only)"]
     flagged = analyses(ses, rep)
     rep.samples.append({"flagged": [(f[0], f[1]) for f in flagged][:5]})
-    confirm(rep, flagged, IGNORE_BATTERY, "C08", ("ignore", "toggle", "both"))
+    confirm(rep, flagged, IGNORE_BATTERY, "C08", ("ignore", "toggle", "both", "output"))
     confirm(rep, flagged, [b for b in RANGE_BATTERY if "ignore" in b[0]], "C08", ("ignored-in-range",))
     confirm(rep, flagged, [b for b in IGNORE_BATTERY if b[0].startswith("field-")], "C08", ("field",))
     sort_requires_kernels(rep, ses, ("guard", "region"), lambda n: "ignor" in n)
-    others = [f for f in flagged if f[2] not in ("ignore", "toggle", "both", "ignored-in-range", "field")]
+    others = [f for f in flagged if f[2] not in ("ignore", "toggle", "both", "ignored-in-range", "field", "output")]
     rep.extra["flagged_for_C09"] = [f[0] for f in others]
 
 
